@@ -53,6 +53,8 @@ def section(ctx, pid, program):
       cache._Cache = None
       mc = cache.MetricCache()
       pub = {c: [] for c in counters}
+      first = {c: -1 for c in counters}
+      cur_report = [0]
       before = {c: rng.randint(0, 4) for c in counters}
       during = {c: rng.randint(0, 3) for c in counters}
       after = {c: rng.randint(0, 2) for c in counters}
@@ -62,6 +64,8 @@ def section(ctx, pid, program):
         for c in counters:
           if name.endswith('.' + c):
             pub[c].append(int(value))
+            if cur_report[0] == 0:
+              first[c] = max(first[c], 0) + int(value)
         # somebody else counts while the report goes out (one increment per published self-metric until used up)
         for c in counters:
           if todo.get(c, 0) > 0:
@@ -81,6 +85,7 @@ def section(ctx, pid, program):
           inc(c)
       for r in range(nrep):
         todo = dict(during) if r == 0 else {}
+        cur_report[0] = r
         instr.recordMetrics()
         if r == 0:
           for c in counters:          # whatever the report did not give a chance to count is counted right after it
@@ -91,7 +96,7 @@ def section(ctx, pid, program):
               inc(c)
       ctx.evaluations += 1
       for c in counters:
-        recs.append(dict(before=before[c], during=during[c], after=after[c], pub=pub[c], left=int(instr.stats.get(c, 0)), nreports=nrep))
+        recs.append(dict(before=before[c], during=during[c], after=after[c], pub=pub[c], first=first[c], left=int(instr.stats.get(c, 0)), nreports=nrep))
         texts.append(dict(program=program, counter=c, before=before[c], during_the_report=during[c], after=after[c], published=pub[c],
                           left_in_current_interval=int(instr.stats.get(c, 0))))
   finally:
